@@ -242,7 +242,12 @@ class World(object):
                     ch = spec['sc'] if args == ['scatter'] else [allfl[args[1] - 1]]
                     s = FlowCal.transform.to_rfi(s, [list(s.channels).index(c) for c in ch])
                 elif fn == 'to_mef':
-                    s = fx[table_row['Beads ID']](s, allfl[args[1] - 1])
+                    # by hand: the ONE standard curve the referenced beads row fitted for this channel, applied through a
+                    # call of its own (the workflow goes through the beads row's function, which holds all its curves)
+                    out = mo[table_row['Beads ID']]
+                    ch = allfl[args[1] - 1]
+                    crv = out.fitting['std_crv'][list(out.mef_channels).index(ch)]
+                    s = FlowCal.transform.to_mef(s, [list(s.channels).index(ch)], [crv], [ch])
                 elif fn == 'start_end':
                     s = FlowCal.gate.start_end(s, num_start=args[0], num_end=args[1])
                 elif fn == 'high_low':
